@@ -34,7 +34,7 @@ def parse_states(lines):
 class C01(NlpCheck):
     pid = "C01"
     uses_generated = True
-    slices = ["shooting-dynamic-rows", "sampled-states", "discrete_system()"]
+    slices = ["shooting-dynamic-rows", "sampled-states", "discrete_system()", "template-instances"]
     tags = ("dyn",)
     profiles = [
         ("shooting-dynamic-rows",
@@ -78,6 +78,69 @@ class C01(NlpCheck):
     def correspondence(self):
         NlpCheck.correspondence(self)
         self.discrete_system_slice()
+        self.template_instance_slice()
+
+    def template_instance_slice(self):
+        """the scheme does not depend on HOW the stage came to be: a model declared on a template and instantiated with ocp.stage(template, ...)
+        — a discrete-time rule using t, DT and DT_control, or an ODE using t — gives the NLP of the same model declared directly on a stage
+        with that horizon (whose rows the main correspondence ties to the model)"""
+        import casadi as ca
+        from .props2 import nlp_compare_ocps
+        rockit = B.import_rockit()
+        name = "template-instances"
+        n = 6 if self.tier == 'quick' else 60
+        rng = self.rng
+        for it in range(n):
+            discrete = it % 3 != 2
+            kind = ['ms', 'ss'][it % 2]
+            N, M = rng.randint(2, 3), rng.randint(2, 3)
+            geo = rng.random() < 0.5
+            t0, T = rng.randint(-2, 4) / 2.0, rng.randint(2, 7) / 2.0
+            c = [rng.randint(1, 6) / 4.0 for _ in range(5)]
+            info = {"discrete": discrete, "method": kind, "N": N, "M": M, "grid": "geometric" if geo else "uniform", "t0": t0, "T": T, "coefficients": c}
+
+            def mk():
+                g = rockit.GeometricGrid(2) if geo else rockit.UniformGrid()
+                kw = {'intg': 'rk'} if not discrete else {}
+                return rockit.MultipleShooting(N=N, M=M, grid=g, **kw) if kind == 'ms' else rockit.SingleShooting(N=N, M=M, grid=g, **kw)
+
+            def declare(st):
+                x = st.state(); y = st.state(); u = st.control()
+                if discrete:
+                    st.set_next(x, x + c[0] * st.DT * y + c[1] * st.DT_control * u + c[2] * st.t * st.DT)
+                    st.set_next(y, y - c[3] * st.DT_control * x * st.DT + c[4] * st.DT * u)
+                else:
+                    st.set_der(x, c[0] * y + c[1] * u + c[2] * st.t)
+                    st.set_der(y, -c[3] * x * st.t + c[4] * u)
+                st.add_objective(st.at_tf(x ** 2 + y ** 2) + st.sum(u ** 2, include_last=False))
+                st.subject_to(-2 <= (u <= 2), include_last=False)
+                st.subject_to(st.at_t0(x) == 1)
+                st.subject_to(st.at_t0(y) == 0.5)
+                st.method(mk())
+
+            def build(templated):
+                with B.quiet():
+                    ocp = rockit.Ocp()
+                    if templated:
+                        tmpl = rockit.Stage(t0=0, T=1)
+                        declare(tmpl)
+                        ocp.stage(tmpl, t0=t0, T=T)
+                    else:
+                        declare(ocp.stage(t0=t0, T=T))
+                    ocp.solver('ipopt', {'ipopt.print_level': 0, 'print_time': False, 'ipopt.max_iter': 0, 'ipopt.sb': 'yes'})
+                return ocp
+            try:
+                msg = nlp_compare_ocps(build(True), build(False), rng, "instance of a template vs the same %s model declared directly (%s, N=%d, M=%d)"
+                                       % ("discrete-time" if discrete else "continuous-time", kind, N, M))
+            except Exception as ex:
+                msg = "a template instance with a %s model raised %s: %s" % ("discrete-time" if discrete else "continuous-time", type(ex).__name__, str(ex)[:250].replace("\n", " "))
+            self.evaluations += 1
+            self.signatures.add("tmpl-instance-%d" % it)
+            self.count("template-instance:" + ("discrete" if discrete else "ode") + ":" + kind)
+            if msg:
+                self.slice_ok[name] = False
+                self.violation(msg, {"case": info}, {"kind": "template-instance", "discrete": discrete})
+                return
 
     def discrete_system_slice(self):
         n = 12 if self.tier == 'quick' else 150
